@@ -277,7 +277,7 @@ static std::string do_tsan(const std::string & line) {
         {
             File f;
             f.open(path.c_str(), std::ios_base::in);
-            while (ObjectHeaderBase * o = f.read()) { delete o; n++; g_progress++; }
+            while (ObjectHeaderBase * o = f.read()) { delete o; n++; g_progress++; if (f.eof() && f.good()) g_progress++; }
             f.close();
             cnt = f.currentObjectCount;
             usz = f.currentUncompressedFileSize;
@@ -295,7 +295,12 @@ static std::string do_tsan(const std::string & line) {
         f.compressionLevel = level;
         f.setDefaultLogContainerSize(static_cast<uint32_t>(cs));
         f.open(path.c_str(), std::ios_base::out);
-        write_objects(f, parts, 1);
+        for (size_t k = 1; k < parts.size(); k++) {
+            std::vector<std::string> one = {parts[0], parts[k]};
+            write_objects(f, one, 1);
+            /* an application may poll the state of the session between two writes */
+            if (!f.good() && !f.eof()) g_progress++;
+        }
         f.close();
         cnt = f.currentObjectCount;
         usz = f.currentUncompressedFileSize;
@@ -364,6 +369,39 @@ static std::string do_write_resize(const std::string & line) {
     }
     std::remove(path.c_str());
     return "FC ok n=" + std::to_string(n) + " inorder=" + (inorder ? "1" : "0");
+}
+
+// FV <lv1> <lv2> <cs> <n1> <pause_ms> | objs : a write session whose compression level is changed from lv1 to lv2 after the first
+// n1 objects (after a pause, so that the workers have drained what was written so far and wait for more)
+static std::string do_write_level_switch(const std::string & line) {
+    std::vector<std::string> parts = split_bar(line);
+    std::istringstream hs(parts[0]);
+    std::string cmd;
+    int lv1 = 1, lv2 = 0, pause = 0;
+    long cs = 0x20000, n1 = 0;
+    hs >> cmd >> lv1 >> lv2 >> cs >> n1 >> pause;
+    std::string path = g_tmp + ".v.blf";
+    {
+        File f;
+        f.compressionLevel = lv1;
+        f.setDefaultLogContainerSize(static_cast<uint32_t>(cs));
+        f.writeRestorePoints = false;
+        f.open(path.c_str(), std::ios_base::out);
+        if (!f.is_open()) return "FV err open";
+        std::vector<std::string> first(parts.begin(), parts.begin() + std::min<size_t>(parts.size(), static_cast<size_t>(1 + n1)));
+        write_objects(f, first, 1);
+        if (pause > 0) std::this_thread::sleep_for(std::chrono::milliseconds(pause));
+        f.compressionLevel = lv2;
+        if (parts.size() > static_cast<size_t>(1 + n1)) {
+            std::vector<std::string> rest(parts.begin() + 1 + n1, parts.end());
+            rest.insert(rest.begin(), parts[0]);
+            write_objects(f, rest, 1);
+        }
+        f.close();
+    }
+    std::string out = "FV ok " + slurp_hex(path);
+    std::remove(path.c_str());
+    return out;
 }
 
 // FE <reads> <sleep_ms> <mode> <hex> : read `reads` objects (all if < 0), pause, then close (0) / destroy (1) /
@@ -540,6 +578,7 @@ static std::string do_history(const std::string & line) {
     std::vector<std::string> ops;
     while (ss >> op) ops.push_back(op);
     long long before = g_live_allocs;
+    int nwrites = 0;
     {
         File * f = new File;
         auto fl = [&](const std::string & tag, const char * x) { out += ' '; out += tag; out += x; out += ':'; out += (f->is_open() ? '1' : '0'); out += (f->good() ? '1' : '0'); out += (f->eof() ? '1' : '0'); };
@@ -552,7 +591,19 @@ static std::string do_history(const std::string & line) {
                 else if (op == "ob") f->open(bad.c_str(), std::ios_base::in);
                 else if (op == "oo") f->open(outp.c_str(), std::ios_base::out);
                 else if (op == "r") { if (f->is_open()) { ObjectHeaderBase * o = f->read(); out += o ? " +obj" : " +null"; delete o; } else out += " +skip"; }
-                else if (op == "w") { if (f->is_open()) f->write(new CanMessage); else out += " +skip"; }
+                else if (op == "w") {
+                    if (f->is_open()) {
+                        /* the k-th write of a history hands over a different kind of object: ordinary, restore point (type 115,
+                           not counted), one with a payload */
+                        ObjectHeaderBase * wo = nullptr;
+                        switch (nwrites++ % 4) {
+                        case 1: { auto * rp = new RestorePointContainer; rp->data.assign(40, 7); wo = rp; break; }
+                        case 2: { auto * at = new AppText; at->text.assign(300, 'x'); wo = at; break; }
+                        default: wo = new CanMessage; break;
+                        }
+                        f->write(wo);
+                    } else out += " +skip";
+                }
                 else if (op == "c") f->close();
                 fl(op, "");
             } catch (Vector::BLF::Exception &) {
@@ -602,6 +653,7 @@ int main(int argc, char ** argv) {
             else if (line.compare(0, 3, "FH ") == 0) r = do_history(line);
             else if (line.compare(0, 3, "FN ") == 0) r = do_memory_write(line);
             else if (line.compare(0, 3, "FT ") == 0) r = do_tsan(line);
+            else if (line.compare(0, 3, "FV ") == 0) r = do_write_level_switch(line);
             else if (line.compare(0, 3, "FC ") == 0) r = do_write_resize(line);
             else if (line.compare(0, 3, "FL ") == 0) r = do_write_late_config(line);
             else if (line.compare(0, 3, "FU ") == 0) r = do_memory_file(line);
